@@ -555,6 +555,11 @@ class FPath:
     def name(self):
         return self.p[self.p.rfind("/") + 1 :]
 
+    def absolute(self):
+        return self  # every path of the fake file system is absolute
+
+    resolve = absolute
+
     def exists(self):
         return self.p in self.fs.files or self.p in self.fs.dirs
 
@@ -785,7 +790,8 @@ def h_sink_finalise(nparts, parts_base, keep_parts):
             receipts = [sink(ids[k], blobs[k]) for k in range(nparts)]
             out = sink.finalise(receipts, keep_parts=keep_parts)
             prove("destination_is_concatenation_in_given_order", open(dst, "rb").read() == b"".join(blobs))
-            pdir = (scratch if parts_base else root + "/out") + "/.result.tif.parts"
+            pdir = str(sink._parts_dir)
+            prove("parts_dir_is_under_the_requested_base", os.path.dirname(pdir) == (scratch if parts_base else root + "/out"))
             if keep_parts:
                 prove("parts_kept", os.path.isdir(pdir))
             else:
@@ -818,7 +824,8 @@ def h_sink_finalise(nparts, parts_base, keep_parts):
     prove("destination_exists", got is not None)
     if got is not None:
         prove("destination_is_concatenation_in_given_order", And(got._len() == pos, Or(pos == 0, got.lo == 0) if got.lo is not None else pos == 0))
-    pdir = ("/scratch" if parts_base else "/out") + "/.result.tif.parts"
+    pdir = str(sink._parts_dir)
+    prove("parts_dir_is_under_the_requested_base", pdir.rsplit("/", 1)[0] == ("/scratch" if parts_base else "/out"))
     leftovers = [f for f in fs.files if f.startswith(pdir + "/")]
     if keep_parts:
         prove("parts_dir_kept", pdir in fs.dirs)
@@ -827,6 +834,63 @@ def h_sink_finalise(nparts, parts_base, keep_parts):
         prove("parts_dir_removed", pdir not in fs.dirs)
     prove("returns_destination", str(out) == dst)
     prove("nothing_else_left_in_out", sorted(f for f in fs.files if f.startswith("/out/") and not f.startswith(pdir + "/")) == [dst])
+
+
+def h_two_sinks(same_name):
+    """two exports in flight that share a parts directory (parts_base=) -- to destinations with the
+    same file name in different directories, or with different names: each sink's finalisation
+    still produces the concatenation of ITS parts"""
+    import odc.geo.cog._mpu_fs as fsm
+
+    from .c06 import Seg
+
+    if symx.concrete_mode():
+        import os
+        import shutil
+        import tempfile
+
+        root = tempfile.mkdtemp(prefix="vf-sink2-")
+        try:
+            for d in ("a", "b", "scratch"):
+                os.makedirs(f"{root}/{d}")
+            d1, d2 = f"{root}/a/cog.tif", (f"{root}/b/cog.tif" if same_name else f"{root}/b/other.tif")
+            s1, s2 = fsm.MPUFileSink(d1, parts_base=f"{root}/scratch"), fsm.MPUFileSink(d2, parts_base=f"{root}/scratch")
+            A, B = b"A" * int(Int("size_a", 1, 64)), b"B" * int(Int("size_b", 1, 64))
+            r1 = s1(1, A)
+            r2 = s2(1, B)
+            ok1 = ok2 = False
+            try:
+                s1.finalise([r1])
+                ok1 = open(d1, "rb").read() == A
+                s2.finalise([r2])
+                ok2 = open(d2, "rb").read() == B
+            except OSError:
+                pass
+            prove("first_sink_gets_its_own_parts", ok1)
+            prove("second_sink_gets_its_own_parts", ok2)
+        finally:
+            shutil.rmtree(root, ignore_errors=True)
+        return
+    fs = FakeFS()
+    fs.dirs |= {"/out/a", "/out/b"}
+    FPath.fs = fs
+    d1, d2 = "/out/a/cog.tif", ("/out/b/cog.tif" if same_name else "/out/b/other.tif")
+    s1, s2 = fsm.MPUFileSink(d1, parts_base="/scratch"), fsm.MPUFileSink(d2, parts_base="/scratch")
+    na, nb = Int("size_a", 1, 64), Int("size_b", 1, 64)
+    segA, segB = Seg(0, na), Seg(1000, 1000 + nb)
+    r1 = fsm.MPUFileSink.__call__(s1, 1, segA)
+    r2 = fsm.MPUFileSink.__call__(s2, 1, segB)
+    failed = None
+    try:
+        s1.finalise([r1])
+        got1 = fs.files.get(d1)
+        s2.finalise([r2])
+        got2 = fs.files.get(d2)
+    except (OSError, FileNotFoundError) as e:
+        failed = e
+        got1, got2 = fs.files.get(d1), fs.files.get(d2)
+    prove("first_sink_gets_its_own_parts", got1 is not None and bool(And(got1.lo == 0, got1.hi == na)))
+    prove("second_sink_gets_its_own_parts", failed is None and got2 is not None and bool(And(got2.lo == 1000, got2.hi == 1000 + nb)))
 
 
 def _sink_write(sink, part_id, seg, k):
@@ -869,6 +933,10 @@ OBLIGATIONS = [
        functions=("odc.geo.cog._mpu_fs.MPUFileSink.min_write_sz", "odc.geo.cog._mpu_fs.MPUFileSink.max_write_sz", "odc.geo.cog._mpu_fs.MPUFileSink.min_part", "odc.geo.cog._mpu_fs.MPUFileSink.max_part"),
        bounds="each of the four keyword limits present or absent (symbolic flag) with symbolic values", setup=setup_fs),
     Ob("W4_s3_limits", h_s3_limits, fixed(), descr="S3 writers report the S3 limits, max above min", functions=("odc.geo.cog._s3.S3Limits",)),
+    Ob("W6_two_sinks_one_parts_base", h_two_sinks, fixed(dict(same_name=True), dict(same_name=False)),
+       descr="two file sinks in flight that share parts_base= (destinations with the same file name in different directories, or different names): each finalisation yields the concatenation of its own parts",
+       functions=("odc.geo.cog._mpu_fs.MPUFileSink.__init__", "odc.geo.cog._mpu_fs.MPUFileSink.__call__", "odc.geo.cog._mpu_fs.MPUFileSink.finalise"),
+       bounds="one part each of symbolic size; writes of both sinks before either finalisation", stubs=("in-memory file system (Path/open/mmap) with stream-interval contents",), setup=setup_sink),
     Ob("W5_sink_finalise", h_sink_finalise, tiered([dict(nparts=n, parts_base=b, keep_parts=k) for n, b, k in ((1, False, False), (2, False, False), (3, True, False), (2, True, True))],
                                                    [dict(nparts=n, parts_base=b, keep_parts=k) for n in (1, 2, 3, 4) for b in (False, True) for k in (False, True)]),
        descr="MPUFileSink.finalise: destination == concatenation of the parts in the order given; temporary parts and their directory removed (unless keep_parts)",
